@@ -1,3 +1,1156 @@
 package g_pkg
 
-func c12ChildBatch(payload []byte) ([]byte, error) { return nil, nil }
+import (
+	"bufio"
+	"bytes"
+	"crypto/sha256"
+	_ "embed"
+	"encoding/hex"
+	"encoding/json"
+	"fmt"
+	"os"
+	"path/filepath"
+	"runtime/debug"
+	"sort"
+	"strconv"
+	"strings"
+	"sync"
+	"testing"
+	"time"
+
+	"github.com/influxdata/influxdb/v2/models"
+
+	"verifharness/vkit"
+)
+
+// C12 — the line-protocol parser is total and accepts exactly well-formed lines (DESIGN §5 C12).
+//
+// Inputs are a pure function of (VERIF_SEED, case#): structured valid batches, valid batches
+// with injected defects of known kind, key-length boundary lines, mutations of corpus entries
+// (string literals of models/points_test.go) and of rendered valid lines, and raw byte soup.
+// Each batch of cases runs in a child process (re-exec of this test binary). The child writes
+// the case number and the input to a journal before parsing it, recovers panics per input, and
+// returns counts and oracle verdicts; a process-fatal event is attributed to the journalled
+// input by the parent.
+//
+// Oracles: (1) no panic / fatal error; hang → watchdog → inconclusive. (2) independent validator
+// on every returned point. (3) structured cases: known-valid lines are accepted and yield the
+// model point, lines with an injected defect are rejected, and the error text names exactly
+// the defective lines. (4) inputs whose line structure is unambiguous (no double quote, no
+// backslash before a newline): the batch result equals the concatenation of the results of
+// parsing each physical line alone, and every rejected line is named in the error text.
+
+//go:embed testdata/c12_corpus.txt
+var c12CorpusRaw string
+
+var (
+	c12CorpusOnce sync.Once
+	c12Corpus     []string
+)
+
+func c12LoadCorpus() []string {
+	c12CorpusOnce.Do(func() {
+		for _, l := range strings.Split(c12CorpusRaw, "\n") {
+			if l == "" {
+				continue
+			}
+			if s, err := strconv.Unquote(l); err == nil {
+				c12Corpus = append(c12Corpus, s)
+			}
+		}
+	})
+	return c12Corpus
+}
+
+var c12Default = time.Unix(0, 1600000000123456789).UTC()
+
+// ---- input generation -----------------------------------------------------------------------
+
+type c12Expect struct {
+	Kind     string   // valid | defect | boundary | mutated | soup
+	Lines    []string // physical/logical lines of a structured case, in order
+	Valid    []bool   // per line: must be accepted (true) or rejected (false)
+	Defects  []string // per line: defect kind ("" for valid)
+	Models   []*c11Point
+	Prec     string
+	Detail   string
+	Trigger  string // "leading_space+quote" when a line starts with a blank run containing a space and contains a double quote
+}
+
+type c12Input struct {
+	Data   []byte
+	Prec   string
+	Expect *c12Expect // nil for mutated / soup
+	Kind   string
+}
+
+// clean model point: the C11 generator restricted to names without backslashes (names with
+// backslashes do not round-trip — C11 — so their validity by construction is not known)
+func c12CleanPoint(rg *vkit.Rand) c11Point {
+	for {
+		p := c11Gen(rg)
+		if c11Trigger(p)["backslash_in"] != "none" {
+			continue
+		}
+		if len(p.Tags) > 20 && !rg.Chance(1, 4) {
+			continue
+		}
+		return p
+	}
+}
+
+var c12Defects = []string{
+	"no_fields", "no_measurement", "duplicate_tag", "duplicate_tag_unsorted", "tag_without_value", "tag_without_equals",
+	"field_without_value", "field_without_key", "bad_number", "int_out_of_range", "uint_out_of_range", "negative_unsigned",
+	"float_out_of_range", "bad_boolean", "nan_inf", "bad_timestamp", "timestamp_out_of_range", "trailing_garbage",
+	"reserved_tag_key", "key_too_long", "series_key_too_long", "unbalanced_quote", "empty_tag_key", "fields_separator_missing",
+	"field_key_blank", "bytes_after_string",
+}
+
+func c12DefectLine(rg *vkit.Rand, kind, prec string) string {
+	ts := " 1600000000"
+	if rg.Chance(1, 3) {
+		ts = ""
+	}
+	switch kind {
+	case "no_fields":
+		return vkit.Pick(rg, []string{"cpu,host=a", "cpu", "cpu,host=a ", "cpu "})
+	case "no_measurement":
+		return vkit.Pick(rg, []string{",host=a value=1", " ,host=a value=1" + ts})
+	case "duplicate_tag":
+		return "cpu,host=a,host=b value=1" + ts
+	case "duplicate_tag_unsorted":
+		return vkit.Pick(rg, []string{"cpu,b=1,a=2,b=3 value=1", "cpu,z=1,host=a,region=x,host=b value=1i", "cpu,b=1,b=1,a=0 value=1"}) + ts
+	case "tag_without_value":
+		return vkit.Pick(rg, []string{"cpu,host= value=1", "cpu,host=a,region= value=1", "cpu,host=,region=b value=1"}) + ts
+	case "tag_without_equals":
+		return vkit.Pick(rg, []string{"cpu,host value=1", "cpu,host=a,region value=1"}) + ts
+	case "empty_tag_key":
+		return vkit.Pick(rg, []string{"cpu,=a value=1", "cpu,host=a,=b value=1", "cpu, value=1", "cpu,host=a, value=1"}) + ts
+	case "field_without_value":
+		return vkit.Pick(rg, []string{"cpu value=", "cpu value=,other=1", "cpu a=1,value=", "cpu value= 10"})
+	case "field_without_key":
+		return vkit.Pick(rg, []string{"cpu =1", "cpu a=1,=2", "cpu a=1,b"}) + ts
+	case "fields_separator_missing":
+		return vkit.Pick(rg, []string{"cpu a=1,b", "cpu a=1,", "cpu a"}) + ts
+	case "bad_number":
+		return "cpu value=" + vkit.Pick(rg, []string{"1.2.3", "1i2", "--1", "1e", "0x10", "1_000", "-", "1-", "+1", ".", "-.", "1e5i", "1.5i", "1iu", "e5", "1 e5=2"}) + ts
+	case "int_out_of_range":
+		return "cpu value=" + vkit.Pick(rg, []string{"9223372036854775808i", "-9223372036854775809i", "99999999999999999999i", "123456789012345678901234567890i"}) + ts
+	case "uint_out_of_range":
+		return "cpu value=" + vkit.Pick(rg, []string{"18446744073709551616u", "99999999999999999999u", "184467440737095516150u"}) + ts
+	case "negative_unsigned":
+		return "cpu value=" + vkit.Pick(rg, []string{"-1u", "-0u", "-18446744073709551615u"}) + ts
+	case "float_out_of_range":
+		return "cpu value=" + vkit.Pick(rg, []string{"1e309", "-1e309", "1.8e308", "1" + strings.Repeat("0", 400), "-2" + strings.Repeat("0", 309) + ".5"}) + ts
+	case "bad_boolean":
+		return "cpu value=" + vkit.Pick(rg, []string{"tru", "yes", "TrUe", "fals", "falsee", "tt", "Tr", "FALSe", "truee"}) + ts
+	case "nan_inf":
+		return "cpu value=" + vkit.Pick(rg, []string{"NaN", "nan", "+Inf", "-Inf", "Inf", "inf", "Infinity", "-NaN"}) + ts
+	case "bad_timestamp":
+		return "cpu value=1 " + vkit.Pick(rg, []string{"12x", "1.5", "1e9", "-", "--1", "+1", "0x10", "1_000", "１２"})
+	case "timestamp_out_of_range":
+		mult := c11Mult(prec)
+		return "cpu value=1 " + vkit.Pick(rg, []string{
+			strconv.FormatInt((models.MaxNanoTime/mult)+1+int64(rg.Intn(3)), 10),
+			strconv.FormatInt((models.MinNanoTime/mult)-1-int64(rg.Intn(3)), 10),
+			"9223372036854775808", "-9223372036854775809", "99999999999999999999",
+		})
+	case "trailing_garbage":
+		return "cpu value=1 1600000000 " + vkit.Pick(rg, []string{"x", "1", "value=2", ",", "="})
+	case "reserved_tag_key":
+		return "cpu," + vkit.Pick(rg, []string{"_field", "_measurement", "time"}) + "=a value=1" + ts
+	case "key_too_long":
+		return strings.Repeat("m", 65536+rg.Intn(3)) + " v=1" + ts
+	case "series_key_too_long":
+		f := rg.Range(1, 50)
+		return strings.Repeat("m", 65535-4-f+1+rg.Intn(2)) + " " + strings.Repeat("f", f) + "=1" + ts
+	case "field_key_blank": // the field key consists of a tab / NUL only (skipped as whitespace): no usable field
+		return vkit.Pick(rg, []string{"cpu \t=1", "cpu \x00=1", "cpu,host=a \t\t=1i", "cpu \x00\t=true"}) + ts
+	case "bytes_after_string": // a string value must end at its closing quote
+		return vkit.Pick(rg, []string{`cpu value="a"b`, `cpu value=""=4,"==""`, `cpu value="a"1i,other=2`}) + ts
+	case "unbalanced_quote":
+		return vkit.Pick(rg, []string{`cpu value="abc`, `cpu a=1,value="abc\"`, `cpu value="a"b"`})
+	}
+	panic("unknown defect " + kind)
+}
+
+func c12Spaces(rg *vkit.Rand) string {
+	if rg.Chance(3, 4) {
+		return " "
+	}
+	return strings.Repeat(" ", rg.Range(2, 4))
+}
+
+// render a clean model point with optional whitespace variations
+func c12RenderLine(rg *vkit.Rand, p c11Point) string {
+	s := c11Render(rg, p)
+	if rg.Chance(1, 8) {
+		s = vkit.Pick(rg, []string{" ", "  ", "\t", " \t "}) + s
+	}
+	if p.HasTS && rg.Chance(1, 8) {
+		s += strings.Repeat(" ", rg.Range(1, 3))
+	}
+	return s
+}
+
+func c12Structured(rg *vkit.Rand, withDefects bool) c12Input {
+	prec := vkit.Pick(rg, c11Precisions)
+	e := &c12Expect{Prec: prec, Kind: "valid"}
+	n := rg.Range(1, 6)
+	for i := 0; i < n; i++ {
+		p := c12CleanPoint(rg)
+		// one precision per request: re-align the timestamp to it
+		p.Prec = prec
+		p.Time -= p.Time % c11Mult(prec)
+		pp := p
+		e.Lines = append(e.Lines, c12RenderLine(rg, p))
+		e.Valid = append(e.Valid, true)
+		e.Defects = append(e.Defects, "")
+		e.Models = append(e.Models, &pp)
+	}
+	if withDefects {
+		e.Kind = "defect"
+		nd := rg.Range(1, 3)
+		for d := 0; d < nd; d++ {
+			kind := vkit.Pick(rg, c12Defects)
+			line := c12DefectLine(rg, kind, prec)
+			pos := rg.Intn(len(e.Lines) + 1)
+			if kind == "unbalanced_quote" {
+				pos = len(e.Lines) // an open quote swallows the following lines: keep it last
+				if len(e.Defects) > 0 && e.Defects[len(e.Defects)-1] == "unbalanced_quote" {
+					continue
+				}
+			} else if len(e.Defects) > 0 && e.Defects[len(e.Defects)-1] == "unbalanced_quote" && pos == len(e.Lines) {
+				pos = 0
+			}
+			e.Lines = append(e.Lines[:pos], append([]string{line}, e.Lines[pos:]...)...)
+			e.Valid = append(e.Valid[:pos], append([]bool{false}, e.Valid[pos:]...)...)
+			e.Defects = append(e.Defects[:pos], append([]string{kind}, e.Defects[pos:]...)...)
+			e.Models = append(e.Models[:pos], append([]*c11Point{nil}, e.Models[pos:]...)...)
+		}
+	}
+	e.Trigger = "none"
+	for _, l := range e.Lines {
+		lead := l[:len(l)-len(c12TrimLead(l))]
+		if strings.Contains(lead, " ") && strings.Contains(l, `"`) {
+			e.Trigger = "leading_space+quote"
+		}
+	}
+	// assemble: blank lines and comments in between, optional trailing newline
+	var sb strings.Builder
+	for i, l := range e.Lines {
+		if rg.Chance(1, 6) {
+			sb.WriteString(vkit.Pick(rg, []string{"\n", "# a comment\n", "   \n", "\t#x\n", "#\n"}))
+		}
+		sb.WriteString(l)
+		if i < len(e.Lines)-1 || rg.Bool() {
+			sb.WriteByte('\n')
+		}
+	}
+	return c12Input{Data: []byte(sb.String()), Prec: prec, Expect: e, Kind: e.Kind}
+}
+
+// key-length boundary lines: valid iff len(key) ≤ 65535 and len(key)+4+len(fieldkey) ≤ 65535
+func c12Boundary(rg *vkit.Rand) c12Input {
+	f := vkit.Pick(rg, []int{1, 2, 7, 100})
+	limit := models.MaxKeyLength - 4 - f
+	keyLen := limit + rg.Intn(5) - 2
+	if rg.Chance(1, 5) {
+		keyLen = models.MaxKeyLength + rg.Intn(3) - 1
+	}
+	tags := ""
+	if rg.Bool() {
+		tags = ",host=a,region=b"
+	}
+	name := strings.Repeat("m", keyLen-len(tags))
+	fields := strings.Repeat("f", f) + "=1i"
+	second := rg.Bool()
+	f2 := 0
+	if second { // a second, shorter or longer field key: every field key counts
+		f2 = f + rg.Intn(5) - 2
+		if f2 < 1 {
+			f2 = 1
+		}
+		fields = "a" + strings.Repeat("g", f2-1) + "=2i," + fields
+	}
+	maxF := f
+	if f2 > maxF {
+		maxF = f2
+	}
+	valid := keyLen <= models.MaxKeyLength && keyLen+4+maxF <= models.MaxKeyLength
+	line := name + tags + " " + fields + " 1600000000"
+	e := &c12Expect{Kind: "boundary", Trigger: "none", Prec: "s", Lines: []string{line}, Valid: []bool{valid}, Defects: []string{""}, Models: []*c11Point{nil},
+		Detail: fmt.Sprintf("key length %d, field keys %d/%d, limit %d", keyLen, f, f2, models.MaxKeyLength)}
+	if !valid {
+		e.Defects[0] = "series_key_too_long"
+	}
+	return c12Input{Data: []byte(line), Prec: "s", Expect: e, Kind: "boundary"}
+}
+
+var c12Hostile = []byte{',', '=', ' ', '"', '\\', '\n', '\r', '\t', 0, '#', 'i', 'u', 'e', 'E', '-', '+', '.', '0', '1', '9', 't', 'f', 'T', 'F', 'n', 'N', 0xff, 0x80, 'a', 'm'}
+
+var c12Numbers = []string{"9223372036854775807", "-9223372036854775808", "9223372036854775808", "1e309", "18446744073709551616u", "18446744073709551615u", "NaN", "Inf", "1e-400", "-0", "00000000000000000000000000001i",
+	"9223372036854775806", "-9223372036854775806", "0.000000000000000000000000000000000000000000001", "1E+2", "1.e2", ".5", "5.", "1i", "1u", "t", "F", "True", `"s"`, `""`, `"\""`, `"\\"`}
+
+func c12Mutate(rg *vkit.Rand, base []byte, corpus []string) []byte {
+	b := append([]byte(nil), base...)
+	for m := rg.Range(1, 4); m > 0; m-- {
+		pos := 0
+		if len(b) > 0 {
+			pos = rg.Intn(len(b) + 1)
+		}
+		switch rg.Intn(14) {
+		case 0, 1: // insert a hostile byte
+			b = append(b[:pos], append([]byte{vkit.Pick(rg, c12Hostile)}, b[pos:]...)...)
+		case 2: // replace
+			if pos < len(b) {
+				b[pos] = vkit.Pick(rg, c12Hostile)
+			}
+		case 3: // delete a byte
+			if pos < len(b) {
+				b = append(b[:pos], b[pos+1:]...)
+			}
+		case 4: // delete a range
+			if pos < len(b) {
+				end := pos + rg.Intn(len(b)-pos+1)
+				b = append(b[:pos], b[end:]...)
+			}
+		case 5: // duplicate a range
+			if pos < len(b) {
+				end := pos + rg.Intn(minInt(len(b)-pos, 40)+1)
+				seg := append([]byte(nil), b[pos:end]...)
+				b = append(b[:end], append(seg, b[end:]...)...)
+			}
+		case 6: // truncate
+			b = b[:pos]
+		case 7: // splice with another corpus entry
+			o := []byte(vkit.Pick(rg, corpus))
+			cut := rg.Intn(len(o) + 1)
+			b = append(b[:pos], o[cut:]...)
+		case 8: // append another line
+			b = append(b, vkit.Pick(rg, []string{"\n", "\r\n", "\n\n", "\n#c\n"})...)
+			b = append(b, vkit.Pick(rg, corpus)...)
+		case 9: // replace a numeric-looking run by an extreme literal
+			i := bytes.IndexAny(b, "0123456789")
+			if i >= 0 {
+				j := i
+				for j < len(b) && strings.IndexByte("0123456789.eEiu+-", b[j]) >= 0 {
+					j++
+				}
+				b = append(b[:i], append([]byte(vkit.Pick(rg, c12Numbers)), b[j:]...)...)
+			}
+		case 10: // many tags
+			if i := bytes.IndexByte(b, ' '); i > 0 && rg.Chance(1, 4) {
+				var tags []byte
+				n := rg.Range(95, 210)
+				for t := 0; t < n; t++ {
+					tags = append(tags, fmt.Sprintf(",t%d=%d", (t*7919)%n, t)...)
+				}
+				if rg.Chance(1, 3) {
+					tags = append(tags, ",t5=dup"...)
+				}
+				b = append(b[:i], append(tags, b[i:]...)...)
+			}
+		case 11: // a backslash in front of a delimiter / at the end
+			if i := bytes.IndexAny(b[minInt(pos, len(b)):], ", =\"\n"); i >= 0 {
+				i += minInt(pos, len(b))
+				b = append(b[:i], append([]byte{'\\'}, b[i:]...)...)
+			} else {
+				b = append(b, '\\')
+			}
+		case 12: // swap two halves around a space
+			if i := bytes.IndexByte(b, ' '); i > 0 {
+				b = append(append(append([]byte(nil), b[i+1:]...), ' '), b[:i]...)
+			}
+		default: // huge key (rare)
+			if rg.Chance(1, 30) {
+				b = append(bytes.Repeat([]byte{vkit.Pick(rg, []byte{'k', '\\', ','})}, 65500+rg.Intn(80)), b...)
+			} else {
+				b = append(b[:pos], append([]byte(vkit.Pick(rg, []string{"=", ",", " ", "\"", "\\", "\\\\", "\\\"", " = ", ",,", "==", "\x00", "# "})), b[pos:]...)...)
+			}
+		}
+	}
+	return b
+}
+
+func c12Soup(rg *vkit.Rand) []byte {
+	n := rg.Intn(64)
+	if rg.Chance(1, 20) {
+		n = rg.Intn(600)
+	}
+	b := make([]byte, n)
+	mode := rg.Intn(3)
+	for i := range b {
+		switch mode {
+		case 0:
+			b[i] = vkit.Pick(rg, c12Hostile)
+		case 1:
+			b[i] = byte(rg.Intn(256))
+		default:
+			if rg.Chance(1, 3) {
+				b[i] = vkit.Pick(rg, c12Hostile)
+			} else {
+				b[i] = "abcmvx012"[rg.Intn(9)]
+			}
+		}
+	}
+	return b
+}
+
+var c12Precs = []string{"ns", "ns", "us", "ms", "s", "n", "", "u", "m", "h", "x"}
+
+func c12Gen(seed int64, i int) c12Input {
+	rg := vkit.CaseRand(seed, "C12", i)
+	corpus := c12LoadCorpus()
+	switch x := rg.Intn(100); {
+	case x < 12:
+		return c12Structured(rg, false)
+	case x < 30:
+		return c12Structured(rg, true)
+	case x < 31:
+		return c12Boundary(rg)
+	case x < 45: // mutate a rendered valid batch
+		in := c12Structured(rg, rg.Chance(1, 4))
+		return c12Input{Data: c12Mutate(rg, in.Data, corpus), Prec: in.Prec, Kind: "mutated_generated"}
+	case x < 85: // mutate a corpus entry
+		base := []byte(vkit.Pick(rg, corpus))
+		if rg.Chance(1, 10) {
+			return c12Input{Data: base, Prec: vkit.Pick(rg, c12Precs), Kind: "corpus"}
+		}
+		return c12Input{Data: c12Mutate(rg, base, corpus), Prec: vkit.Pick(rg, c12Precs), Kind: "mutated_corpus"}
+	default:
+		return c12Input{Data: c12Soup(rg), Prec: vkit.Pick(rg, c12Precs), Kind: "soup"}
+	}
+}
+
+// ---- child side -----------------------------------------------------------------------------
+
+type c12Req struct {
+	Seed    int64  `json:"seed"`
+	From    int    `json:"from"`
+	To      int    `json:"to"`
+	Journal string `json:"journal"`
+	Samples int    `json:"samples"`
+}
+
+type c12Viol struct {
+	Class string            `json:"class"`
+	Feats map[string]string `json:"feats"`
+	Wit   map[string]any    `json:"wit"`
+}
+
+type c12Resp struct {
+	Keys    []string         `json:"keys"` // 16 hex chars per case (hash of the input), "!"-prefixed when non-trivial
+	Events  map[string]int64 `json:"events"`
+	Viols   []c12Viol        `json:"viols"`
+	Tally   map[string]int   `json:"tally"`
+	Samples []map[string]any `json:"samples"`
+	Done    int              `json:"done"`
+}
+
+func c12Clip(b []byte) map[string]any {
+	m := map[string]any{"len": len(b)}
+	if len(b) <= 400 {
+		m["quoted"] = strconv.Quote(string(b))
+	} else {
+		m["quoted_head"] = strconv.Quote(string(b[:300]))
+		m["quoted_tail"] = strconv.Quote(string(b[len(b)-80:]))
+		m["sha256"] = fmt.Sprintf("%x", sha256.Sum256(b))
+	}
+	return m
+}
+
+func c12ChildBatch(payload []byte) ([]byte, error) {
+	var req c12Req
+	if err := json.Unmarshal(payload, &req); err != nil {
+		return nil, err
+	}
+	jf, err := os.OpenFile(req.Journal, os.O_CREATE|os.O_WRONLY|os.O_APPEND, 0o644)
+	if err != nil {
+		return nil, err
+	}
+	defer jf.Close()
+	resp := &c12Resp{Events: map[string]int64{}, Tally: map[string]int{}}
+	var cur struct {
+		sync.Mutex
+		i     int
+		since time.Time
+	}
+	// per-input hang watchdog: wall clock, fires only as "inconclusive" (exit code 95)
+	go func() {
+		for {
+			time.Sleep(500 * time.Millisecond)
+			cur.Lock()
+			stuck := !cur.since.IsZero() && time.Since(cur.since) > 60*time.Second
+			i := cur.i
+			cur.Unlock()
+			if stuck {
+				fmt.Fprintf(os.Stderr, "C12-HANG case=%d\n", i)
+				os.Exit(95)
+			}
+		}
+	}()
+	for i := req.From; i < req.To; i++ {
+		in := c12Gen(req.Seed, i)
+		// journal first: case number, precision, input
+		fmt.Fprintf(jf, "%d %q %s\n", i, in.Prec, hex.EncodeToString(in.Data))
+		cur.Lock()
+		cur.i, cur.since = i, time.Now()
+		cur.Unlock()
+		c12RunOne(resp, i, in, len(resp.Samples) < req.Samples)
+		cur.Lock()
+		cur.since = time.Time{}
+		cur.Unlock()
+		resp.Done = i + 1
+	}
+	return json.Marshal(resp)
+}
+
+func (resp *c12Resp) viol(class string, feats map[string]string, wit map[string]any) {
+	keys := make([]string, 0, len(feats))
+	for k := range feats {
+		keys = append(keys, k)
+	}
+	sort.Strings(keys)
+	t := class
+	for _, k := range keys {
+		t += " " + k + "=" + feats[k]
+	}
+	resp.Tally[t]++
+	if resp.Tally[t] <= 3 && len(resp.Viols) < 60 { // a few witnesses per (class, features) and batch
+		resp.Viols = append(resp.Viols, c12Viol{class, feats, wit})
+	} else {
+		resp.Viols = append(resp.Viols, c12Viol{class, feats, nil})
+	}
+}
+
+func c12Site(stack []byte) string {
+	fr := c11RepoFrames(stack)
+	if len(fr) == 0 {
+		return "harness"
+	}
+	return fr[0]
+}
+
+type c12Parsed struct {
+	pts      []models.Point
+	err      error
+	panicked bool
+}
+
+func c12Parse(resp *c12Resp, i int, in c12Input, data []byte, what string) (out c12Parsed) {
+	defer func() {
+		if e := recover(); e != nil {
+			st := debug.Stack()
+			out.panicked = true
+			resp.viol("parser_panic", map[string]string{"site": c12Site(st), "call": what},
+				map[string]any{"case": i, "kind": in.Kind, "precision": in.Prec, "input": c12Clip(data), "panic": fmt.Sprint(e), "repo_frames": c11RepoFrames(st)})
+		}
+	}()
+	buf := append([]byte(nil), data...) // the parser may keep references / reorder tags inside its input
+	pts, err := models.ParsePointsWithPrecision(buf, c12Default, in.Prec)
+	return c12Parsed{pts: pts, err: err}
+}
+
+// c12FieldShape tokenizes the raw field section of a returned point independently of the
+// parser and names the first irregularity; it only labels violations (trigger), it decides nothing.
+func c12FieldShape(pt models.Point) (shape string) {
+	defer func() {
+		if recover() != nil {
+			shape = "unknown"
+		}
+	}()
+	s := pt.String()
+	blob := s[len(pt.Key())+1:]
+	if i := strings.LastIndexByte(blob, ' '); i >= 0 {
+		blob = blob[:i]
+	}
+	for i := 0; i < len(blob); {
+		// key up to an unescaped '='
+		k := i
+		for i < len(blob) && !(blob[i] == '=' && (i == k || blob[i-1] != '\\')) {
+			i++
+		}
+		key := blob[k:i]
+		if len(strings.Trim(key, " \t\x00")) == 0 {
+			if len(key) == 0 {
+				return "empty_key"
+			}
+			return "blank_key"
+		}
+		if i >= len(blob) {
+			return "key_without_value"
+		}
+		i++ // '='
+		if i < len(blob) && blob[i] == '"' {
+			i++
+			for i < len(blob) && blob[i] != '"' {
+				if blob[i] == '\\' && i+1 < len(blob) {
+					i++
+				}
+				i++
+			}
+			i++ // closing quote
+			if i < len(blob) && blob[i] != ',' {
+				return "bytes_after_closing_quote"
+			}
+		} else {
+			for i < len(blob) && blob[i] != ',' {
+				if blob[i] == '"' {
+					return "quote_inside_unquoted_value"
+				}
+				i++
+			}
+		}
+		i++ // ','
+	}
+	return "regular"
+}
+
+// independent validator of one returned point (the well-formedness conditions of the statement)
+func c12Validate(resp *c12Resp, i int, in c12Input, idx int, pt models.Point) {
+	wit := func(extra map[string]any) map[string]any {
+		m := map[string]any{"case": i, "kind": in.Kind, "precision": in.Prec, "input": c12Clip(in.Data), "point_index": idx}
+		func() {
+			defer func() { recover() }()
+			m["point_key"] = strconv.Quote(string(pt.Key()))
+		}()
+		for k, v := range extra {
+			m[k] = v
+		}
+		return m
+	}
+	defer func() {
+		if e := recover(); e != nil {
+			st := debug.Stack()
+			resp.viol("returned_point_panics", map[string]string{"site": c12Site(st)}, wit(map[string]any{"panic": fmt.Sprint(e), "repo_frames": c11RepoFrames(st)}))
+		}
+	}()
+	resp.Events["points_validated"]++
+	shape := ""
+	cond := func(c string) map[string]string {
+		if shape == "" {
+			shape = c12FieldShape(pt)
+		}
+		return map[string]string{"condition": c, "field_shape": shape}
+	}
+	if len(pt.Name()) == 0 {
+		resp.viol("returned_point_malformed", cond("empty_measurement"), wit(nil))
+	}
+	fields, err := pt.Fields()
+	switch {
+	case err != nil:
+		resp.viol("returned_point_malformed", cond("fields_unparseable"), wit(map[string]any{"err": err.Error()}))
+	case len(fields) == 0:
+		resp.viol("returned_point_malformed", cond("no_fields"), wit(nil))
+	}
+	nIter := 0
+	for it := pt.FieldIterator(); it.Next(); {
+		nIter++
+		if len(it.FieldKey()) == 0 {
+			resp.viol("returned_point_malformed", cond("empty_field_key"), wit(nil))
+		}
+		if sz := len(pt.Key()) + 4 + len(it.FieldKey()); sz > models.MaxKeyLength {
+			resp.viol("returned_point_malformed", cond("series_key_too_long"), wit(map[string]any{"size": sz}))
+		}
+	}
+	if nIter == 0 {
+		resp.viol("returned_point_malformed", cond("no_fields"), wit(nil))
+	}
+	if len(pt.Key()) > models.MaxKeyLength {
+		resp.viol("returned_point_malformed", cond("key_too_long"), wit(map[string]any{"size": len(pt.Key())}))
+	}
+	seen := map[string]bool{}
+	for _, tg := range pt.Tags() {
+		if seen[string(tg.Key)] {
+			resp.viol("returned_point_malformed", cond("duplicate_tag_key"), wit(map[string]any{"tag_key": strconv.Quote(string(tg.Key))}))
+			break
+		}
+		seen[string(tg.Key)] = true
+	}
+	if ns := pt.UnixNano(); ns < models.MinNanoTime || ns > models.MaxNanoTime || !pt.Time().Equal(time.Unix(0, ns)) {
+		resp.viol("returned_point_malformed", cond("time_not_representable"), wit(map[string]any{"unix_nano": ns, "time": pt.Time().String()}))
+	}
+}
+
+func c12TrimLead(s string) string {
+	i := 0
+	for i < len(s) && (s[i] == ' ' || s[i] == '\t' || s[i] == 0) {
+		i++
+	}
+	return s[i:]
+}
+
+// the error text names a line by quoting it: "unable to parse '<line>': <cause>"
+func c12Names(piece, line string) bool {
+	return strings.HasPrefix(piece, "unable to parse '"+line+"': ")
+}
+
+func c12SamePoint(a, b models.Point) bool {
+	return bytes.Equal(a.Key(), b.Key()) && a.UnixNano() == b.UnixNano() && a.String() == b.String()
+}
+
+func c12RunOne(resp *c12Resp, i int, in c12Input, wantSample bool) {
+	h := sha256.Sum256(append([]byte(in.Prec+"|"), in.Data...))
+	res := c12Parse(resp, i, in, in.Data, "batch")
+	resp.Events["executions"]++
+	resp.Events["kind_"+in.Kind]++
+	nontrivial := len(res.pts) > 0 || res.err != nil
+	key := hex.EncodeToString(h[:8])
+	if nontrivial {
+		key = "!" + key
+	}
+	resp.Keys = append(resp.Keys, key)
+	if res.panicked {
+		return
+	}
+	resp.Events["points_returned"] += int64(len(res.pts))
+	if res.err != nil {
+		resp.Events["batches_with_error"]++
+	}
+	for idx, pt := range res.pts {
+		c12Validate(resp, i, in, idx, pt)
+	}
+	if wantSample && nontrivial && (i%7 == 0) {
+		e := ""
+		if res.err != nil {
+			e = res.err.Error()
+			if len(e) > 300 {
+				e = e[:300] + "…"
+			}
+		}
+		resp.Samples = append(resp.Samples, map[string]any{"case": i, "kind": in.Kind, "precision": in.Prec, "input": c12Clip(in.Data), "points": len(res.pts), "error": e})
+	}
+	if in.Expect != nil {
+		c12CheckExpect(resp, i, in, res)
+	}
+	c12Accounting(resp, i, in, res)
+}
+
+// structured cases: validity of every line is known by construction
+func c12CheckExpect(resp *c12Resp, i int, in c12Input, res c12Parsed) {
+	e := in.Expect
+	wantPts, wantRej := 0, []int{}
+	for k, v := range e.Valid {
+		if v {
+			wantPts++
+		} else {
+			wantRej = append(wantRej, k)
+		}
+	}
+	errText := ""
+	if res.err != nil {
+		errText = res.err.Error()
+	}
+	base := func() map[string]any {
+		et := errText
+		if len(et) > 700 {
+			et = et[:700] + "…"
+		}
+		return map[string]any{"case": i, "kind": in.Kind, "precision": in.Prec, "input": c12Clip(in.Data), "lines": len(e.Lines), "points_returned": len(res.pts), "error": et, "defects": e.Defects, "detail": e.Detail}
+	}
+	// every line has a verdict; blame individual lines by parsing them alone
+	if len(res.pts) != wantPts || (res.err == nil) != (len(wantRej) == 0) {
+		blamed := false
+		for k, line := range e.Lines {
+			solo := c12Parse(resp, i, in, []byte(line), "solo")
+			if solo.panicked {
+				continue
+			}
+			acc := solo.err == nil && len(solo.pts) == 1
+			if acc != e.Valid[k] {
+				blamed = true
+				w := base()
+				w["line"] = c12Clip([]byte(line))
+				if solo.err != nil {
+					w["solo_error"] = solo.err.Error()
+				}
+				if e.Valid[k] {
+					resp.viol("valid_line_rejected", map[string]string{"kind": in.Kind, "trigger": e.Trigger}, w)
+				} else {
+					resp.viol("malformed_line_accepted", map[string]string{"defect": e.Defects[k], "trigger": e.Trigger}, w)
+				}
+			}
+		}
+		if !blamed {
+			resp.viol("batch_accounting_wrong", map[string]string{"kind": in.Kind, "what": "points_or_error_count", "trigger": e.Trigger}, base())
+		}
+		return
+	}
+	resp.Events["structured_lines_valid_accepted"] += int64(wantPts)
+	resp.Events["structured_lines_defect_rejected"] += int64(len(wantRej))
+	for _, k := range wantRej {
+		resp.Events["defect_rejected_"+e.Defects[k]]++
+	}
+	// the error names exactly the rejected lines, in order
+	if len(wantRej) > 0 {
+		rest := errText
+		for n, k := range wantRej {
+			line := c12TrimLead(e.Lines[k])
+			pfx := "unable to parse '" + line + "': "
+			if !strings.HasPrefix(rest, pfx) {
+				w := base()
+				w["expected_piece_prefix"] = c12Clip([]byte(pfx))
+				w["rejected_line_no"] = n
+				resp.viol("error_does_not_name_rejected_line", map[string]string{"kind": in.Kind, "defect": e.Defects[k], "trigger": e.Trigger}, w)
+				return
+			}
+			// skip to the next piece: causes never contain a newline unless the line itself does (it does not)
+			nl := strings.Index(rest[len(pfx):], "\n")
+			if nl < 0 {
+				rest = ""
+			} else {
+				rest = rest[len(pfx)+nl+1:]
+			}
+			if e.Defects[k] == "unbalanced_quote" {
+				rest = ""
+			}
+		}
+		if rest != "" {
+			w := base()
+			w["unexpected_extra_error_text"] = c12Clip([]byte(rest))
+			resp.viol("error_names_accepted_line", map[string]string{"kind": in.Kind, "trigger": e.Trigger}, w)
+		}
+		resp.Events["error_texts_matched"]++
+	}
+	// accepted lines yield the model point (tag order-insensitively: C11 covers order)
+	pi := 0
+	for k, v := range e.Valid {
+		if !v {
+			continue
+		}
+		pt := res.pts[pi]
+		pi++
+		m := e.Models[k]
+		if m == nil {
+			continue
+		}
+		want := *m
+		wantTime := want.Time
+		if !want.HasTS {
+			wantTime = c12Default.UnixNano() - c12Default.UnixNano()%c11Mult(e.Prec)
+		}
+		d := map[string]string{}
+		func() {
+			defer func() {
+				if r := recover(); r != nil {
+					d["panic"] = fmt.Sprint(r)
+				}
+			}()
+			got := pt.Tags()
+			sorted := make([]c11KV, len(got))
+			for x, tg := range got {
+				sorted[x] = c11KV{string(tg.Key), string(tg.Value)}
+			}
+			sort.Slice(sorted, func(a, b int) bool { return sorted[a].K < sorted[b].K })
+			d = c11Diff(pt, want, wantTime)
+			delete(d, "tags")
+			if fmt.Sprint(sorted) != fmt.Sprint(want.Tags) {
+				d["tags"] = fmt.Sprintf("want %q got %q", want.Tags, sorted)
+			}
+		}()
+		resp.Events["accepted_points_compared_with_model"]++
+		if len(d) > 0 {
+			w := base()
+			w["line"] = c12Clip([]byte(e.Lines[k]))
+			w["diff"] = d
+			comp := make([]string, 0, len(d))
+			for c := range d {
+				comp = append(comp, c)
+			}
+			sort.Strings(comp)
+			resp.viol("accepted_point_differs_from_line", map[string]string{"component": strings.Join(comp, "+"), "trigger": e.Trigger}, w)
+		}
+	}
+}
+
+// inputs with unambiguous line structure: batch == concatenation of solo parses
+func c12Accounting(resp *c12Resp, i int, in c12Input, res c12Parsed) {
+	d := in.Data
+	if bytes.IndexByte(d, '"') >= 0 || bytes.Contains(d, []byte("\\\n")) || len(d) > 8000 {
+		resp.Events["accounting_skipped_ambiguous_lines"]++
+		return
+	}
+	resp.Events["accounting_batches"]++
+	var wantPts []models.Point
+	var wantErr []string
+	var rejLines []string
+	for _, line := range strings.Split(string(d), "\n") {
+		tl := c12TrimLead(line)
+		if tl == "" || tl[0] == '#' {
+			continue
+		}
+		resp.Events["accounting_lines"]++
+		solo := c12Parse(resp, i, in, []byte(line), "solo")
+		if solo.panicked {
+			return
+		}
+		switch {
+		case solo.err == nil && len(solo.pts) == 1:
+			wantPts = append(wantPts, solo.pts[0])
+		case solo.err != nil && len(solo.pts) == 0:
+			wantErr = append(wantErr, solo.err.Error())
+			rejLines = append(rejLines, tl)
+			if !c12Names(solo.err.Error(), tl) {
+				resp.viol("error_does_not_name_rejected_line", map[string]string{"kind": in.Kind, "defect": "solo"},
+					map[string]any{"case": i, "kind": in.Kind, "line": c12Clip([]byte(line)), "error": solo.err.Error()})
+				return
+			}
+		default:
+			resp.viol("batch_accounting_wrong", map[string]string{"kind": in.Kind, "what": "single_line_yields_point_and_error_or_neither"},
+				map[string]any{"case": i, "line": c12Clip([]byte(line)), "points": len(solo.pts), "error": fmt.Sprint(solo.err)})
+			return
+		}
+	}
+	w := func() map[string]any {
+		e := fmt.Sprint(res.err)
+		if len(e) > 700 {
+			e = e[:700] + "…"
+		}
+		return map[string]any{"case": i, "kind": in.Kind, "precision": in.Prec, "input": c12Clip(d), "points_returned": len(res.pts), "points_expected": len(wantPts), "error": e, "rejected_lines_expected": len(wantErr)}
+	}
+	if len(res.pts) != len(wantPts) {
+		resp.viol("batch_accounting_wrong", map[string]string{"kind": in.Kind, "what": "points_differ_from_line_by_line"}, w())
+		return
+	}
+	for k := range wantPts {
+		same := false
+		func() {
+			defer func() { recover() }()
+			same = c12SamePoint(res.pts[k], wantPts[k])
+		}()
+		if !same {
+			m := w()
+			m["point_index"] = k
+			resp.viol("batch_accounting_wrong", map[string]string{"kind": in.Kind, "what": "point_differs_from_line_alone"}, m)
+			return
+		}
+	}
+	got := ""
+	if res.err != nil {
+		got = res.err.Error()
+	}
+	if want := strings.Join(wantErr, "\n"); got != want {
+		m := w()
+		m["error_expected"] = c12Clip([]byte(want))
+		what := "error_text_differs_from_line_by_line"
+		if got == "" {
+			what = "rejected_lines_not_reported"
+		}
+		resp.viol("batch_accounting_wrong", map[string]string{"kind": in.Kind, "what": what}, m)
+		return
+	}
+	resp.Events["accounting_lines_rejected"] += int64(len(wantErr))
+	resp.Events["accounting_lines_accepted"] += int64(len(wantPts))
+}
+
+// ---- parent side ----------------------------------------------------------------------------
+
+func TestC12(t *testing.T) {
+	r := vkit.Start(t, "C12", "exploration")
+	defer r.Finish()
+	tally := gpNewTally(r)
+	defer tally.Flush()
+	corpus := c12LoadCorpus()
+	r.Rule("a case = one input to ParsePointsWithPrecision, a pure function of (seed, case#): 12% structured valid batches (clean C11 model points, whitespace/comment/blank-line variations), 18% valid batches with 1–3 injected defect lines of 26 known kinds, 1% key-length boundary lines (65 535), 14% mutations of generated batches, 40% mutations of the " + fmt.Sprint(len(corpus)) + " string literals of models/points_test.go (1–4 stacked byte/structure mutations: hostile bytes, delete/duplicate/truncate/splice, extreme numbers, 95–210 tags, backslash before delimiter, 65 KB keys), 15% byte soup; precisions ns/us/ms/s and unknown ones; executed in child processes with the input journalled before parsing; non-trivial = the parser returned a point or an error; distinct = hash of (precision, input)")
+	n := r.N(150000, 5000000)
+	batch := 5000
+	workers := 4
+	if replay := os.Getenv("VERIF_REPLAY"); replay != "" {
+		c12Replay(t, r, replay)
+		return
+	}
+	dir := t.TempDir()
+	type job struct{ from, to int }
+	type result struct {
+		job  job
+		resp *c12Resp
+		res  vkit.ChildResult
+		err  error
+		jour string
+	}
+	var jobs []job
+	for f := 0; f < n; f += batch {
+		to := f + batch
+		if to > n {
+			to = n
+		}
+		jobs = append(jobs, job{f, to})
+	}
+	results := make([]result, len(jobs))
+	var wg sync.WaitGroup
+	sem := make(chan struct{}, workers)
+	run := func(j job, idx int) result {
+		jour := filepath.Join(dir, fmt.Sprintf("journal-%d-%d", j.from, idx))
+		req, _ := json.Marshal(c12Req{Seed: r.Seed, From: j.from, To: j.to, Journal: jour, Samples: 2})
+		res, err := vkit.RunChild("c12batch", req, 20*time.Minute)
+		out := result{job: j, res: res, err: err, jour: jour}
+		if err == nil && !res.Crashed() && !res.TimedOut && res.ExitCode == 0 {
+			var resp c12Resp
+			if e := json.Unmarshal(res.Out, &resp); e == nil {
+				out.resp = &resp
+			} else {
+				out.err = fmt.Errorf("child output: %v", e)
+			}
+		}
+		return out
+	}
+	for idx, j := range jobs {
+		wg.Add(1)
+		sem <- struct{}{}
+		go func(idx int, j job) {
+			defer wg.Done()
+			defer func() { <-sem }()
+			results[idx] = run(j, idx)
+		}(idx, j)
+	}
+	wg.Wait()
+	var allViols []c12Viol
+	absorb := func(resp *c12Resp) {
+		for _, k := range resp.Keys {
+			if strings.HasPrefix(k, "!") {
+				r.Case(k[1:], true)
+			} else {
+				r.Case(k, false)
+			}
+		}
+		for k, v := range resp.Events {
+			r.Event(k, v)
+		}
+		for _, s := range resp.Samples {
+			if r.WantSample() {
+				r.Sample(s)
+			}
+		}
+		allViols = append(allViols, resp.Viols...)
+	}
+	lastJournal := func(path string) (int, string, []byte) {
+		f, err := os.Open(path)
+		if err != nil {
+			return -1, "", nil
+		}
+		defer f.Close()
+		sc := bufio.NewScanner(f)
+		sc.Buffer(make([]byte, 1<<20), 64<<20)
+		last := ""
+		for sc.Scan() {
+			if sc.Text() != "" {
+				last = sc.Text()
+			}
+		}
+		parts := strings.SplitN(last, " ", 3)
+		if len(parts) != 3 {
+			return -1, "", nil
+		}
+		no, _ := strconv.Atoi(parts[0])
+		prec, _ := strconv.Unquote(parts[1])
+		data, _ := hex.DecodeString(parts[2])
+		return no, prec, data
+	}
+	for idx := 0; idx < len(results); idx++ {
+		res := results[idx]
+		for attempts := 0; ; attempts++ {
+			if res.resp != nil {
+				absorb(res.resp)
+				break
+			}
+			// the child died, hung or failed: attribute it to the journalled input and resume after it
+			no, prec, data := lastJournal(res.jour)
+			logTail := string(res.res.Log)
+			if len(logTail) > 3000 {
+				logTail = logTail[len(logTail)-3000:]
+			}
+			switch {
+			case res.err != nil && !res.res.Crashed():
+				r.Inconclusive("child could not be run: " + res.err.Error())
+				no = res.job.to
+			case res.res.TimedOut || res.res.ExitCode == 95:
+				r.Inconclusive(fmt.Sprintf("watchdog: case %d did not finish", no))
+				r.Event("hang_suspects", 1)
+				p := filepath.Join(vkit.Root(), "replays", fmt.Sprintf("C12-%d-hang-%d.json", r.Seed, no))
+				b, _ := json.Marshal(map[string]any{"property": "C12", "class": "hang_suspect", "case": no, "precision": prec, "input_hex": hex.EncodeToString(data)})
+				os.WriteFile(p, b, 0o644)
+				fmt.Printf("INCONCLUSIVE property=C12 parser did not return within the watchdog on case %d (input saved to %s)\n", no, p)
+				t.Errorf("INCONCLUSIVE: hang suspect, see %s", p)
+			default:
+				site := "unknown"
+				if m := c11RepoFrames(res.res.Log); len(m) > 0 {
+					site = m[0]
+				}
+				kind := "fatal error"
+				if bytes.Contains(res.res.Log, []byte("panic:")) {
+					kind = "panic"
+				}
+				tally.V("parser_process_crash", map[string]string{"site": site, "kind": kind},
+					map[string]any{"case": no, "precision": prec, "input": c12Clip(data), "input_hex": hex.EncodeToString(data), "exit_code": res.res.ExitCode, "log_tail": logTail})
+				r.Event("child_crashes", 1)
+			}
+			if no < 0 || no+1 >= res.job.to || attempts > 50 {
+				break
+			}
+			r.Case(fmt.Sprintf("crashed-%d", no), true)
+			res = run(job{no + 1, res.job.to}, idx*1000+attempts+1)
+		}
+	}
+	// emit rare classes first: only the first 20 violations get a replay file
+	freq := map[string]int{}
+	vkey := func(v c12Viol) string { return v.Class + fmt.Sprint(v.Feats) }
+	for _, v := range allViols {
+		freq[vkey(v)]++
+	}
+	sort.SliceStable(allViols, func(a, b int) bool {
+		wa, wb := allViols[a].Wit != nil, allViols[b].Wit != nil
+		if wa != wb {
+			return wa
+		}
+		return freq[vkey(allViols[a])] < freq[vkey(allViols[b])]
+	})
+	for _, v := range allViols {
+		wit := any(v.Wit)
+		if v.Wit == nil {
+			wit = "witness omitted (more of the same class in this batch)"
+		}
+		tally.V(v.Class, v.Feats, wit)
+	}
+	r.Event("child_batches", int64(len(jobs)))
+	r.Extra("corpus_entries", len(corpus))
+	r.Extra("defect_kinds", c12Defects)
+	r.Assume("line accounting is asserted on structured cases and on inputs without double quotes and without a backslash directly before a newline (there a line is a physical line); for other inputs only totality and the validator apply",
+		"blank = only space/tab/NUL; comment = first non-blank byte is '#'",
+		"validity by construction of generated lines follows my reading of the line-protocol reference (names without backslashes, no control characters)")
+	r.Trust("child-process isolation: vkit.RunChild re-executes this test binary")
+}
+
+func c12Replay(t *testing.T, r *vkit.Run, path string) {
+	b, err := os.ReadFile(path)
+	if err != nil {
+		t.Fatalf("replay: %v", err)
+	}
+	var rec struct {
+		Witness map[string]any `json:"witness"`
+		Case    *int           `json:"case"`
+	}
+	json.Unmarshal(b, &rec)
+	no := -1
+	if rec.Case != nil {
+		no = *rec.Case
+	} else if c, ok := rec.Witness["case"].(float64); ok {
+		no = int(c)
+	}
+	if no < 0 {
+		t.Fatalf("replay: no case number in %s", path)
+	}
+	resp := &c12Resp{Events: map[string]int64{}, Tally: map[string]int{}}
+	in := c12Gen(r.Seed, no)
+	fmt.Printf("replaying case %d (seed %d): kind=%s precision=%q input=%v\n", no, r.Seed, in.Kind, in.Prec, c12Clip(in.Data))
+	c12RunOne(resp, no, in, true)
+	for _, k := range resp.Keys {
+		r.Case(strings.TrimPrefix(k, "!"), true)
+		r.Case(strings.TrimPrefix(k, "!")+"-replay", true)
+	}
+	r.Sample(map[string]any{"replayed_case": no})
+	for _, v := range resp.Viols {
+		r.Violation(v.Class, v.Feats, v.Wit)
+	}
+}
